@@ -201,6 +201,48 @@ Proof.
         -- right. exists k0, v0, c0. repeat split; try assumption. right. assumption.
 Qed.
 
+Lemma gc_groups_perm vols cells : forall groups g,
+  gc_groups vols cells groups = Ok g ->
+  Permutation (List.concat (map snd g)) (List.concat (map snd groups) ++ live_keys vols).
+Proof.
+  induction vols as [|[k v] r IH]; intros groups g H; simpl in H.
+  - inversion H; subst. unfold live_keys. simpl. rewrite app_nil_r. reflexivity.
+  - unfold live_keys. simpl. destruct (v_fictive v) eqn:Ef; simpl.
+    + apply IH. assumption.
+    + destruct (lookup _ cells) as [c|]; [|discriminate].
+      apply IH in H. eapply Permutation_trans; [exact H|].
+      eapply Permutation_trans; [apply Permutation_app_tail; apply gc_add_perm|].
+      rewrite <- app_assoc. reflexivity.
+Qed.
+
+(* every non-virtual volume of the table appears in exactly one GEOMCOMP group, and
+   nothing else is listed *)
+Theorem geomcomp_partition vols cells g :
+  NoDup (keys vols) -> construct_geomcomp vols cells = Ok g ->
+  Permutation (gc_listed g) (live_keys vols) /\
+  (forall k v, In (k, v) vols -> v_fictive v = false -> count_occ Z.eq_dec (gc_listed g) k = 1%nat) /\
+  (forall k, In k (gc_listed g) -> exists v, In (k, v) vols /\ v_fictive v = false) /\
+  Forall (fun l => gc_count l = N.of_nat (List.length (gc_vols l))) g.
+Proof.
+  intros Hnd H. unfold construct_geomcomp in H.
+  destruct (gc_groups vols cells []) as [gr|e] eqn:Eg; [|discriminate]. inversion H; subst; clear H.
+  apply gc_groups_perm in Eg. simpl in Eg.
+  assert (Hp : Permutation (gc_listed (map (fun p => mkGC ("m" +++ fst p) (N.of_nat (List.length (snd p))) (snd p)) gr))
+                           (live_keys vols)).
+  { unfold gc_listed. rewrite map_map. simpl. exact Eg. }
+  split; [exact Hp|]. split; [|split].
+  - intros k v Hin Hf.
+    assert (Hnd' : NoDup (gc_listed (map (fun p => mkGC ("m" +++ fst p) (N.of_nat (List.length (snd p))) (snd p)) gr))).
+    { apply (Permutation_NoDup (Permutation_sym Hp)). unfold live_keys. apply NoDup_keys_filter. assumption. }
+    apply (proj1 (NoDup_count_occ' Z.eq_dec _) Hnd' k).
+    apply (Permutation_in _ (Permutation_sym Hp)). unfold live_keys.
+    apply in_keys with (a := v). apply filter_In. split; [assumption|]. simpl. rewrite Hf. reflexivity.
+  - intros k Hk. apply (Permutation_in _ Hp) in Hk. unfold live_keys in Hk.
+    apply keys_in in Hk. destruct Hk as [v Hk]. apply filter_In in Hk. destruct Hk as [A B].
+    exists v. split; [assumption|]. simpl in B. apply negb_true_iff in B. assumption.
+  - apply Forall_forall. intros l Hl. apply in_map_iff in Hl. destruct Hl as [[n ks] [<- _]]. reflexivity.
+Qed.
+
 (* ---- the theorem ---------------------------------------------------------------------------- *)
 Lemma append_assoc3 a b c : ((a +++ b) +++ c = a +++ (b +++ c))%string.
 Proof. induction a as [|x a IH]; simpl; [reflexivity|]. rewrite IH. reflexivity. Qed.
